@@ -25,7 +25,7 @@ DEFAULT = dict(
     names=None, p_q_spelling=0.0, p_chdir_step=0.0, p_tick0=0.0,
     p_tick_back=0.0, mutation_ops=['write', 'write', 'rm', 'rm', 'mkdir',
                                    'touch'],
-    p_refuse_step=0.0, n_muts=(1, 3), p_q_near_output=0.5, p_plant=0.0, p_double_clean=0.0,
+    p_refuse_step=0.0, n_muts=(1, 3), p_q_near_output=0.5, p_plant=0.2, p_double_clean=0.0,
     p_plain_build=0.15, p_swap_groups=0.0, p_fail_after_nested=0.0,
     p_switch_root=0.3, p_anc_target=0.0, p_stepargs=0.0, p_chain=0.0,
     p_retry=0.0, p_cache_in_output_dir=0.0, p_cache_target=0.02,
